@@ -147,7 +147,9 @@ METHODS = {
     BLD: {'store_bit_int': ([BOOL], NONE, True, '({r}).storeBit? {0}'), 'store_uint': ([NAT, NAT], NONE, True, '({r}).storeUint? {0} {1}'),
           'store_ref': ([CELL], NONE, True, '({r}).storeRef? {0}')},
 }
-SLICE_ATTRS = {'type_': ('kind', INT)}
+# read-only attributes of a Slice; `remaining_bits` / `remaining_refs` (= len(bits) / len(refs) - ref_offset) are what is left to read:
+# the model's Slice holds exactly the remaining bits and references
+SLICE_ATTRS = {'type_': ('kind', INT), 'remaining_refs': ('refs.length', NAT), 'remaining_bits': ('bits.length', NAT)}
 # non-mutating methods that may raise: receiver type -> method -> (result type, lean template)
 PEEK_METHODS = {SLICE: {'preload_bit': (BIT, '({r}).preloadBit?'), 'preload_ref': (CELL, '({r}).preloadRef?')}}
 
